@@ -333,7 +333,7 @@ class Gen(object):
         if self.o.nested and not infun and depth == 0 and self.nfun < 2:
             kinds += ['def'] * 2
         if self.funs and not infun:
-            kinds += ['lcall'] * 3
+            kinds += ['lcall'] * 3 + ['lcall2'] * 2
         if self.o.untyped:
             kinds += ['aug'] * 2
             if self.funs and not infun:
@@ -346,6 +346,13 @@ class Gen(object):
             e, t = self.expr(env)
             self.emit(ind, '%s = %s' % (v, e))
             env[v] = t
+            return env
+        if k == 'unpack' and not infun and r.random() < 0.3:
+            vs = r.sample(vars_, 3)
+            parts = [self.expr(env, 1) for _ in vs]
+            self.emit(ind, '%s = %s' % (', '.join(vs), ', '.join(p[0] for p in parts)))
+            for v, p in zip(vs, parts):
+                env[v] = p[1]
             return env
         if k == 'unpack':
             v1, v2 = r.sample(vars_, 2)
@@ -457,6 +464,20 @@ class Gen(object):
                 env[v] = {typing.Any}
             else:
                 self.emit(ind, '%s(%s)' % (g, arg))
+            for nl in rebinds:
+                env[nl] = {typing.Any}
+            return env
+        if k == 'lcall2':
+            # two call sites of one local function with a captured variable re-bound in between
+            g = r.choice(sorted(self.funs))
+            npar, rebinds = self.funs[g]
+            arg = self.expr(env, 1)[0] if npar else ''
+            self.emit(ind, '%s(%s)' % (g, arg))
+            v = r.choice(sorted(self.defined_outer & set(VARS)))
+            e, t = self.expr(env)
+            self.emit(ind, '%s = %s' % (v, e))
+            env[v] = t
+            self.emit(ind, '%s(%s)' % (g, arg))
             for nl in rebinds:
                 env[nl] = {typing.Any}
             return env
